@@ -132,6 +132,23 @@ def r_onto(F, R, cat=None):
         R.check("R-ONTO", b.label(), ok, construct="every path writes *other",
                 where=b.where(), detail="owned %s; %d write sites: %s" % (
                     owned, len(ws), sorted({"%s %s" % (k, ".".join(p) or "*other") for (_, p, k, _) in ws})))
+        # the target's capacity says nothing about its contents: a count or bound derived from it
+        # (skip / take / truncate / index) mixes up what is stored with what is merely allocated
+        from core import all_ctxs as _all
+        from expr import operand_tree as _ot, nobb as _nb
+        from r_alloc import walk as _wk
+        for c2 in _all(F, b):
+            for (bi2, t2) in c2.body.calls():
+                tg2 = callee_tag(t2.get("callee"))
+                if tg2[1] not in ("skip", "take", "truncate", "min", "max", "index", "split_at", "split_at_mut", "resize", "resize_with"):
+                    continue
+                for a2 in t2["args"][1:] if tg2[1] not in ("min", "max") else t2["args"]:
+                    tr = _nb(_ot(c2, a2))
+                    caps = [nd for nd in _wk(tr) if nd[0] == "call" and nd[1][1] == "capacity"]
+                    if caps:
+                        R.check("R-ONTO", b.label(), False, construct="no bound or count in clone_onto derives from the target's capacity",
+                                where="%s:%s" % (c2.body.file, t2["line"]),
+                                detail="%s(.. %s ..): elements between the target's length and its capacity do not exist" % (tg2[1], show(caps[0])[:50]))
         if owned and owned.startswith("std::vec::Vec<"):
             lf = {bb for (bb, p, k, _) in ws if k == "length" and p == ()} | \
                  {bb for (bb, p, k, _) in ws if k == "assign" and p == ()} | grow
